@@ -32,7 +32,9 @@ func (s Span) String() string {
 //   - a brace-less statement list (alternative syntax bodies) and the
 //     statement lists of case/default spans its statements, and an empty one
 //     yields -1 for the boundary it forms (offset and line).
-func ExpectedSpan(n ast.Vertex) Span {
+func ExpectedSpan(n ast.Vertex) Span { return expectedSpan(n, nil) }
+
+func expectedSpan(n ast.Vertex, known *[]string) Span {
 	type edge struct{ line, pos int }
 	none := edge{-1, -1}
 	var first, last edge
@@ -44,7 +46,7 @@ func ExpectedSpan(n ast.Vertex) Span {
 		last = e
 	}
 	addChild := func(c ast.Vertex) bool {
-		cs := ExpectedSpan(c)
+		cs := expectedSpan(c, known)
 		if cs.Nil {
 			return false
 		}
@@ -56,8 +58,15 @@ func ExpectedSpan(n ast.Vertex) Span {
 		if len(v.Stmts) == 0 {
 			return Span{false, -1, -1, -1, -1}
 		}
-		f, l := ExpectedSpan(v.Stmts[0]), ExpectedSpan(v.Stmts[len(v.Stmts)-1])
+		f, l := expectedSpan(v.Stmts[0], known), expectedSpan(v.Stmts[len(v.Stmts)-1], known)
 		return Span{false, f.StartLine, l.EndLine, f.StartPos, l.EndPos}
+	case *ast.StmtTry:
+		if len(v.Catches) == 0 && v.Finally == nil && v.TryTkn != nil && v.TryTkn.Position != nil && known != nil {
+			// "try {}" without catch/finally (not valid PHP, accepted silently): the
+			// recorded end is -1 — known finding, pinned by the repository's tests
+			*known = append(*known, KnownTryWithoutCatchSpan)
+			return Span{false, v.TryTkn.Position.StartLine, -1, v.TryTkn.Position.StartPos, -1}
+		}
 	case *ast.StmtCase, *ast.StmtDefault:
 		// keyword .. end of the statement list (-1 if it is empty)
 		var stmts []ast.Vertex
@@ -72,7 +81,7 @@ func ExpectedSpan(n ast.Vertex) Span {
 		if len(stmts) == 0 {
 			last = none
 		} else {
-			l := ExpectedSpan(stmts[len(stmts)-1])
+			l := expectedSpan(stmts[len(stmts)-1], known)
 			last = edge{l.EndLine, l.EndPos}
 		}
 		if !have {
@@ -130,6 +139,8 @@ const (
 	KnownEncapsedVarDimSpan = "encapsed-var-dim-span"
 	KnownPHP5GotoLabelSpan  = "php5-goto-label-span"
 	KnownPHP5NewChainSpan   = "php5-new-chain-span"
+	// "try {}" with neither catch nor finally has end -1 (both grammars).
+	KnownTryWithoutCatchSpan = "try-without-catch-span"
 )
 
 // CheckPositions verifies every node position of an error-free tree against
@@ -137,15 +148,17 @@ const (
 // of the two PHP 5-only known findings.
 func CheckPositions(root ast.Vertex, php5 bool) PosReport {
 	rep := PosReport{Sites: map[string]int{}}
-	var walk func(n ast.Vertex, path, site string) bool
-	walk = func(n ast.Vertex, path, site string) bool {
+	var walk func(n, parent ast.Vertex, slot, path, site string, inNewClass bool) bool
+	walk = func(n, parent ast.Vertex, slot, path, site string, inNewClass bool) bool {
 		rep.Nodes++
 		rep.Sites[site]++
 		got := SpanOf(n.GetPosition())
-		want := ExpectedSpan(n)
+		want := expectedSpan(n, &rep.Known)
+		tainted := false
 		if got != want {
-			if k := knownSpan(n, got, want, php5, path); k != "" {
+			if k := knownSpan(n, parent, slot, got, want, php5, inNewClass); k != "" {
 				rep.Known = append(rep.Known, k)
+				tainted = true
 			} else {
 				rep.Clause = "span"
 				rep.Msg = fmt.Sprintf("%s: recorded position %s, but the node's own tokens span %s", path, got, want)
@@ -156,7 +169,7 @@ func CheckPositions(root ast.Vertex, php5 bool) PosReport {
 		prevEnd := -1
 		var prevPath string
 		for _, c := range astx.Children(n) {
-			cp := path
+			var cp string
 			if c.Index >= 0 {
 				cp = fmt.Sprintf("%s.%s[%d]/%s", path, c.Slot, c.Index, astx.KindName(c.Child))
 			} else {
@@ -168,42 +181,46 @@ func CheckPositions(root ast.Vertex, php5 bool) PosReport {
 					rep.Clause, rep.Msg = "start-after-end", fmt.Sprintf("%s: position %s has start after end", cp, cs)
 					return false
 				}
-				if !got.Nil && got.StartPos >= 0 && cs.StartPos < got.StartPos {
-					if len(rep.Known) == 0 {
+				if !tainted && !inNewClass {
+					if !got.Nil && got.StartPos >= 0 && cs.StartPos < got.StartPos {
 						rep.Clause, rep.Msg = "child-outside-parent", fmt.Sprintf("%s %s starts before its parent %s", cp, cs, got)
 						return false
 					}
-				}
-				if !got.Nil && got.EndPos >= 0 && cs.EndPos > got.EndPos {
-					if len(rep.Known) == 0 {
+					if !got.Nil && got.EndPos >= 0 && cs.EndPos > got.EndPos {
 						rep.Clause, rep.Msg = "child-outside-parent", fmt.Sprintf("%s %s ends after its parent %s", cp, cs, got)
 						return false
 					}
-				}
-				if _, isRoot := n.(*ast.Root); !isRoot || true {
 					if cs.StartPos < prevEnd {
-						if len(rep.Known) == 0 {
-							rep.Clause, rep.Msg = "siblings-overlap", fmt.Sprintf("%s %s starts before the end (%d) of its preceding sibling %s", cp, cs, prevEnd, prevPath)
-							return false
-						}
+						rep.Clause, rep.Msg = "siblings-overlap", fmt.Sprintf("%s %s starts before the end (%d) of its preceding sibling %s", cp, cs, prevEnd, prevPath)
+						return false
 					}
 				}
 				prevEnd, prevPath = cs.EndPos, cp
 			}
-			if !walk(c.Child, cp, astx.KindName(c.Child)+"<"+astx.KindName(n)+"."+c.Slot) {
+			inNew := inNewClass
+			if _, isNew := n.(*ast.ExprNew); isNew && c.Slot == "Class" && php5 {
+				inNew = true
+			}
+			if c.Slot != "Var" && c.Slot != "Class" {
+				// only the spine of the class-reference chain is affected
+				if _, isNew := n.(*ast.ExprNew); !isNew {
+					inNew = false
+				}
+			}
+			if !walk(c.Child, n, c.Slot, cp, astx.KindName(c.Child)+"<"+astx.KindName(n)+"."+c.Slot, inNew) {
 				return false
 			}
 		}
 		return true
 	}
 	if !astx.IsNil(root) {
-		walk(root, astx.KindName(root), astx.KindName(root)+"<")
+		walk(root, nil, "", astx.KindName(root), astx.KindName(root)+"<", false)
 	}
 	return rep
 }
 
-// knownSpan recognises the precise signatures of the three test-pinned span findings.
-func knownSpan(n ast.Vertex, got, want Span, php5 bool, path string) string {
+// knownSpan recognises the precise signatures of the test-pinned span findings.
+func knownSpan(n, parent ast.Vertex, slot string, got, want Span, php5, inNewClass bool) string {
 	switch v := n.(type) {
 	case *ast.ScalarEncapsedStringVar:
 		// "${foo[0]}": recorded end is the end of "[" instead of "}"
@@ -212,7 +229,18 @@ func knownSpan(n ast.Vertex, got, want Span, php5 bool, path string) string {
 			return KnownEncapsedVarDimSpan
 		}
 	case *ast.Identifier:
-		_ = v
+		// PHP 5 "goto x;": the label carries the span of the goto keyword
+		if g, ok := parent.(*ast.StmtGoto); ok && php5 && slot == "Label" && g.GotoTkn != nil && g.GotoTkn.Position != nil &&
+			got == SpanOf(g.GotoTkn.Position) {
+			return KnownPHP5GotoLabelSpan
+		}
+	}
+	// PHP 5 "new $a->b[0]": nodes on the spine of the class reference start late
+	if php5 && inNewClass && !got.Nil && !want.Nil {
+		switch n.(type) {
+		case *ast.ExprArrayDimFetch, *ast.ExprPropertyFetch, *ast.ExprStaticPropertyFetch, *ast.ExprVariable:
+			return KnownPHP5NewChainSpan
+		}
 	}
 	return ""
 }
